@@ -144,9 +144,25 @@ func (i *interpreter) visible(fr *frame, what string) {
 			fn := i.faultFn
 			i.faultFn = nil
 			i.events = append(i.events, "fault")
+			nthreads := len(i.threads)
 			i.atomic++
 			call(i, fr, 0, fn, nil)
 			i.atomic--
+			// a fault that started a thread (e.g. a concurrent Close) takes effect NOW:
+			// the new thread runs before the interrupted one continues
+			if len(i.threads) > nthreads && len(i.runq) > 0 {
+				newest := i.threads[len(i.threads)-1]
+				for k, t := range i.runq {
+					if t == newest {
+						i.runq = append(i.runq[:k:k], i.runq[k+1:]...)
+						th := i.cur
+						th.top = fr
+						i.runq = append(i.runq, th)
+						i.handoff(th, newest, true)
+						break
+					}
+				}
+			}
 		}
 	}
 	if !i.explore || i.preempts <= 0 || len(i.runq) == 0 || i.cur == nil || i.atomic > 0 {
